@@ -92,6 +92,17 @@ theorem noop_processActions (st : State) (hq : st.queue = []) : processActions s
     subst hq
     simp [processActions, sortActions, runPasses]
 
+/-- **sort_irrelevant_for_scene.** On every reachable state the scene produced by the three loops of
+    `processActions` does not depend on the order in which the queue is traversed: any permutation of
+    the queue gives the same result as `actionList.sort()`. (So the (type, id) sort matters only for
+    the order of the visibility-graph updates, which is not modelled; a mutant that drops the sort is
+    not observable through the scene.) -/
+theorem sort_irrelevant_for_scene (st : State) (h : Inv st) (l : List Action) (hp : l.Perm st.queue) :
+    view (runPasses st.scene l) = view (processActions st).scene :=
+  runPasses_perm st.scene st.queue l hp h.uniq
+
+example : Inv (run init (demoOps.take 16)) := queue_invariant _ (by decide)
+
 /-- **immediate_mode.** With transactions off (`setTransactionUse(false)`) and nothing queued, every
     legal call is processed at once: afterwards nothing is queued and the router shows the previous
     scene edited by exactly that call. -/
